@@ -220,9 +220,17 @@ func computeRefs(c *drv.Ctx, cases []*lab.Case, budget int, entries func(cs *lab
 }
 
 func allEntries(cs *lab.Case) []int {
-	out := make([]int, len(cs.G.Rules))
-	for i := range out {
-		out[i] = i
+	var out []int
+	pad := 0
+	for i, r := range cs.G.Rules {
+		// filler rules (gram.PadRules) only move rule numbers: two of them are entries
+		if len(r.Name) >= 2 && r.Name[0] == 'P' && r.Name[1] >= '0' && r.Name[1] <= '9' {
+			pad++
+			if pad > 2 {
+				continue
+			}
+		}
+		out = append(out, i)
 	}
 	return out
 }
@@ -263,7 +271,7 @@ func runPoints(c *drv.Ctx, lp *LabProp, l *lab.Lab, pts []*Point) {
 			refs = append(refs, reqRef{pt, v, modes})
 		}
 	}
-	outs := l.Run(reqs, runtime.NumCPU(), 20*time.Second)
+	outs := l.Run(reqs, runtime.NumCPU(), 45*time.Second)
 	for i, o := range outs {
 		r := refs[i]
 		for j, m := range r.mode {
@@ -634,6 +642,12 @@ func reuseCheckVariant(c *drv.Ctx, lp *LabProp, l *lab.Lab, cases []*lab.Case, p
 				}
 				steps = append(steps, proto.Step{Entry: pt.Entry, Input: proto.QStr(pt.Input)})
 				ps = append(ps, pt)
+				if len(steps)%3 == 2 {
+					// the same text once more (Buffer unchanged, Reset, Parse): whatever a parser
+					// keeps "because the text is the same" must not change the result
+					steps = append(steps, proto.Step{Entry: pt.Entry, Input: proto.QStr(pt.Input)})
+					ps = append(ps, pt)
+				}
 			}
 			if len(steps) < 2 {
 				continue
